@@ -3511,8 +3511,25 @@ RegistryT<ArgsT<TG_, TSL_, TRL_, NCC_, NOC_, NOU_, TRO_ HFSM2_IF_SERIALIZATION(,
 		 parent;
 		 parent = forkParent(parent.forkId))
 	{
-		if (parent.forkId > 0)
+		if (parent.forkId > 0) {
 			compoRemains.set(parent.forkId - 1);
+
+			Prong& requested = compoRequested[parent.forkId - 1];
+
+			if (requested != parent.prong && requested != INVALID_PRONG) {
+				// an earlier request targeted a different sub-state of this ancestor:
+				// the later request wins, and the regions below must follow its path as well
+				requested = parent.prong;
+
+				for (Parent below = stateParents[request.destination];
+					 below.forkId != parent.forkId;
+					 below = forkParent(below.forkId))
+				{
+					if (below.forkId > 0 && compoRequested[below.forkId - 1] == INVALID_PRONG)
+						compoRequested[below.forkId - 1] = below.prong;
+				}
+			}
+		}
 		else
 		if (parent.forkId < 0)
 			requestedOrthoFork(parent.forkId).set(parent.prong);
@@ -3847,6 +3864,22 @@ RegistryT<ArgsT<TG_, TSL_, TRL_, NCC_, 0, 0, TRO_ HFSM2_IF_SERIALIZATION(, NSB_)
 		{
 			HFSM2_ASSERT(parent.forkId > 0);
 			compoRemains.set(parent.forkId - 1);
+
+			Prong& requested = compoRequested[parent.forkId - 1];
+
+			if (requested != parent.prong && requested != INVALID_PRONG) {
+				// an earlier request targeted a different sub-state of this ancestor:
+				// the later request wins, and the regions below must follow its path as well
+				requested = parent.prong;
+
+				for (Parent below = stateParents[request.destination];
+					 below.forkId != parent.forkId;
+					 below = forkParent(below.forkId))
+				{
+					if (compoRequested[below.forkId - 1] == INVALID_PRONG)
+						compoRequested[below.forkId - 1] = below.prong;
+				}
+			}
 		}
 	}
 }
